@@ -135,6 +135,10 @@ def raw_texts(rng, n):
         b'"ID","a"\n"r0","q""t"\n"r1",""\n',                       # everything quoted
         b"ID\nr0\nr1\n",                                           # one column
         b"\xef\xbb\xbfID,a\nr0,1\n",                              # a byte-order mark is part of the first header field
+        b"ID,a\n#beta,2\nr1,3\n# not a comment,4\n",               # records beginning with '#': data, not comments
+        b"#ID,a\nr0,1\n;r1,2\n",                                   # the header too
+        b"ID;a\nr0;1\n",                                           # a semicolon is not a separator
+        b"ID\ta\nr0\t1\n",                                         # nor is a tab
     )]
     pool = [b"", b"a", b"b c", b'q"t', b'"', b",", b"x,y", b"l1\nl2", b"\r", b"a\rb", b" lead", b"trail ", b"\xc3\xa9", b"\xff", b"\x00", b"\t"]
     while len(res) < n:
